@@ -55,6 +55,10 @@ def run_c16(prop, tier, seed):
             is_list = isinstance(raw_data(x), list)
             # seed some content
             base = g.container("list" if is_list else "dict", 3)
+            if is_list:
+                base = [1] + base + [{"m": [2, {"n": 3}]}, [4]]
+            else:
+                base["mixed"] = [1, {"m": [2]}, [3]]
             x.reset(copy.deepcopy(base))
 
             def snapshot():
@@ -126,6 +130,26 @@ def run_c16(prop, tier, seed):
                 if not any(is_synced(e) for e in (o if isinstance(o, list) else o.values())):
                     scribble(o, g)
             deep = x()
+
+            def find_synced(v, path=()):
+                if is_synced(v):
+                    return path
+                if isinstance(v, dict):
+                    for k_, x_ in v.items():
+                        r_ = find_synced(x_, path + (k_,))
+                        if r_ is not None:
+                            return r_
+                elif isinstance(v, (list, tuple)):
+                    for i_, x_ in enumerate(v):
+                        r_ = find_synced(x_, path + (i_,))
+                        if r_ is not None:
+                            return r_
+                return None
+            for what_, val_ in [("()", deep)] + ([("values()", list(x.values())), ("items()", [list(p_) for p_ in x.items()])] if not is_list else [("[:]", x()[:])]):
+                sp = find_synced(val_)
+                if sp is not None:
+                    res["oracle_failures"].append({"oracle": "C16-plain", "cls": cls.__name__, "case": i,
+                                                   "detail": f"the result of {what_} contains a live synced collection at {sp}: mutating it writes through"})
             for c in containers_in(deep):
                 if type(c) not in (dict, list):
                     res["oracle_failures"].append({"oracle": "C16-plain", "cls": cls.__name__, "detail": f"() contains {type(c).__name__} below the top level", "case": i})
@@ -300,6 +324,20 @@ def run_c18(prop, tier, seed):
                                     lambda: x.setdefault(g.key(), g.value(3))])()
                 except Exception:  # noqa
                     pass
+                if g.r.random() < 0.35:
+                    # store a live child of ANOTHER family: it must be converted to this root's family
+                    others = [c for c in ns.json_classes if c is not cls and c.__name__.endswith("Dict")]
+                    oc = g.r.choice(others)
+                    ost = Store(ns, oc, tmp, f"fam_{i}_o{_}")
+                    oth = ost.make()
+                    oth["src"] = {"deep": [1, {"z": 2}]}
+                    try:
+                        if kind == "list":
+                            x.append(oth["src"])
+                        else:
+                            x["foreign"] = oth["src"]
+                    except Exception:  # noqa
+                        pass
                 backend = type(x)._backend
                 root_attr = any(issubclass(c, AttrDict) for c in SyncedCollection.registry[backend])
                 for node, path in walk(x):
@@ -369,18 +407,36 @@ def run_c18(prop, tier, seed):
                                     return ("err", type(e).__name__)
                             ev += 1
                             special = name in prot or name.startswith("__") or name in cattrs or name in iattrs
+                            if verb == "get" and present and "." not in name and not special:
+                                # another object bound to the same file changes / deletes the key: attribute reads
+                                # must reflect the backend exactly like item reads
+                                delete_it = g.r.random() < 0.5
+                                for t_, (root_, h_) in enumerate(twins):
+                                    other_ = cls(os.path.join(tmp, f"{r['cls']}_{depth}_{t_}.json"))
+                                    ho_ = other_
+                                    for _d in range(depth):
+                                        ho_ = ho_["lvl"]
+                                    try:
+                                        if delete_it:
+                                            del ho_[name]
+                                        else:
+                                            ho_[name] = {"v": 2}
+                                    except Exception:  # noqa
+                                        pass
                             ra_res = do(ha, "attr")
                             ri_res = do(hi, "item")
                             # observed route of the attribute syntax (only decidable when the item is present)
                             if present and "." not in name and name in raw_data(hi if verb != "set" else hi):
                                 data_a = raw_data(ha)
                                 if verb == "get":
-                                    obs = "RAttrError" if ra_res == ("err", "missing") else ("RItem" if ra_res == ("ok", {"v": 1}) else "RObject")
+                                    obs = "RAttrError" if ra_res == ("err", "missing") else ("RItem" if ra_res in (("ok", {"v": 1}), ("ok", {"v": 2})) else "RObject")
+                                    if ra_res == ("err", "missing") and not name.startswith("__"):
+                                        obs = None       # the key was deleted through the other object: not decidable
                                 elif verb == "set":
                                     obs = "RItem" if (name in data_a and is_synced(data_a[name]) and data_a[name]._to_base() == [7]) else "RObject"
                                 else:
                                     obs = "RItem" if name not in data_a else "RObject"
-                                if not (verb in ("set", "del") and ra_res[0] == "err"):
+                                if obs is not None and not (verb in ("set", "del") and ra_res[0] == "err"):
                                     cases.append("(%s, %s, %s, %s, %s)" % (
                                         {"get": "VGet", "set": "VSet", "del": "VDel"}[verb], c_str(name),
                                         "true" if name in prot else "false", "true" if (name in cattrs or name in iattrs) else "false", obs))
